@@ -720,6 +720,8 @@ def run(ctx):
             if rep % 3 == 2:                    # force a common factor: not invertible
                 f_ = [rng.randrange(p), 1]
                 a, b = r_mul(p, a[:3] or [1], f_), r_mul(p, b[:3], f_)
+                if not r_norm(b):               # b[:3] happened to be all zero: the modulus must be nonzero
+                    b = list(f_)
             pairs.append((r_to_int(p, r_norm(a)), r_to_int(p, r_norm(b))))
         pairs += [(p + 1, p * p + 1), (1, p), (0, p + 1), (p + 1, 1)]          # X+1 mod X^2+1; 1 mod X; 0; constant modulus
         for ia, ib in pairs:
